@@ -268,7 +268,7 @@ def units(tier, seed):
     for i in range(400):  # cheap enough to be exhaustive in both tiers
         us.append({"kind": "ex", "i": i})
     us.append({"kind": "d1"})
-    nr = 16 if tier == "quick" else 640
+    nr = 16 if tier == "quick" else 6400
     for i in range(nr):
         us.append({"kind": "random", "seed": seed * 101 + i, "n": 250})
     for i in range(8 if tier == "quick" else 64):
